@@ -21,6 +21,7 @@ import (
 
 	sdk "github.com/cosmos/cosmos-sdk/types"
 	authtypes "github.com/cosmos/cosmos-sdk/x/auth/types"
+	banktypes "github.com/cosmos/cosmos-sdk/x/bank/types"
 	tmproto "github.com/tendermint/tendermint/proto/tendermint/types"
 
 	abci "github.com/tendermint/tendermint/abci/types"
@@ -169,6 +170,28 @@ func (w *c20World) apply(r *Rec, op string) string {
 				w.app.AccountKeeper.RemoveAccount(w.ctx, acc)
 			}
 			r.Count("fund.no-account")
+		}
+		return "ok"
+	case "sendenabled":
+		// x/bank send restrictions (user MsgSend / MsgMultiSend): a bank parameter, no business of the module-to-module
+		// reward release — the schedule must not depend on it
+		d := string(unhx(f[1]))
+		bp := w.app.BankKeeper.GetParams(w.ctx)
+		on := f[2] == "1"
+		if d == "*" {
+			bp.DefaultSendEnabled = on
+		} else {
+			var out []*banktypes.SendEnabled
+			for _, se := range bp.SendEnabled {
+				if se.Denom != d {
+					out = append(out, se)
+				}
+			}
+			bp.SendEnabled = append(out, &banktypes.SendEnabled{Denom: d, Enabled: on})
+		}
+		w.app.BankKeeper.SetParams(w.ctx, bp)
+		if !on {
+			r.Count("bank.send-disabled")
 		}
 		return "ok"
 	case "restart":
@@ -442,8 +465,14 @@ func c20GenHistory(r *Rec) []string {
 					h = append(h, "enable 0")
 				case y < 5:
 					h = append(h, "enable 1")
-				case y < 7:
+				case y < 6:
 					h = append(h, "restart")
+				case y < 7:
+					d := denoms[r.Rng.Intn(4)]
+					if r.Rng.Intn(5) == 0 {
+						d = "*"
+					}
+					h = append(h, fmt.Sprintf("sendenabled %s %d", hxs(d), r.Rng.Intn(3)/2))
 				default:
 					h = append(h, "blockdry")
 				}
